@@ -34,6 +34,21 @@ type op struct {
 	acked  bool
 	err    string
 	thread int
+	wfrom  int // length of the API's write log when the call began
+}
+
+func writesOf(ws []simapi.WriteRec, name string) string {
+	var parts []string
+	for _, w := range ws {
+		if w.Name == name {
+			who := w.Node
+			if who == "" {
+				who = "foreign"
+			}
+			parts = append(parts, fmt.Sprintf("%s=%d", who, tokenOf(w.Obj)))
+		}
+	}
+	return strings.Join(parts, " ")
 }
 
 func (o *op) String() string {
@@ -206,6 +221,7 @@ func RunC19(r *sim.Run) {
 	exec := func(o *op) {
 		stamp++
 		o.call = stamp
+		o.wfrom = api.NWrites()
 		ops = append(ops, o)
 		var err error
 		func() {
@@ -239,6 +255,22 @@ func RunC19(r *sim.Run) {
 			o.err = firstWords(err.Error())
 		}
 		r.Logf("%v", o)
+		// write-through: "acknowledged" means "already persisted": during the call this
+		// store must itself have written the acknowledged value of that name to the API
+		// (whatever another writer - a previous holder that has not noticed yet - did to
+		// the name before or after)
+		if period == 0 && o.kind == "save" && o.acked && util.GetShardID(o.up, N) == s {
+			r.Checked("acknowledged_save_was_written_by_this_store")
+			wrote := false
+			for _, wr := range api.Writes(o.wfrom) {
+				if wr.Node != "" && wr.Name == o.name && tokenOf(wr.Obj) == o.token {
+					wrote = true
+				}
+			}
+			if !wrote {
+				r.Violate("acked_but_not_persisted", "write-through/no-write", "%v was acknowledged, but during the call this store wrote no object with that value to the API (writes of that name meanwhile: %s)", o, writesOf(api.Writes(o.wfrom), o.name))
+			}
+		}
 	}
 	for k := range progs {
 		k := k
